@@ -26,6 +26,9 @@ type C19Case struct {
 	Pool  int   `json:"pool"`  // vertex pool size
 	Kinds []int `json:"kinds"` // vertex kinds
 	Ops   []GOp `json:"ops"`
+	// Every > 1: the handles are compared with the model only after every Every-th operation
+	// (and after the last): looking at a graph must not be what keeps it consistent
+	Every int `json:"every,omitempty"`
 }
 
 type C19 struct{}
@@ -47,7 +50,7 @@ func (C19) Info() core.Info {
 			"Reverse is only taken of a graph that already holds a vertex (a zero-value Graph has no maps to share yet)",
 			"no fault kind applies to this property; S1 only permutes the order of returned slices, which are compared as sets",
 		},
-		Probes:    []string{"c19_ops", "c19_copy", "c19_rev", "c19_rev_taken_and_dropped", "c19_rm_with_edges", "c19_overwrite_with_edges", "c19_weight_overwritten", "c19_mutation_through_view", "c19_negative_weight"},
+		Probes:    []string{"c19_ops", "c19_copy", "c19_rev", "c19_rev_taken_and_dropped", "c19_ops_without_a_look", "c19_rm_with_edges", "c19_overwrite_with_edges", "c19_weight_overwritten", "c19_mutation_through_view", "c19_negative_weight"},
 		Real:      []string{"internal/graph (woven copy): Add, AddOverwrite, AddEdge, AddEdgeWeighted, RemoveEdge, Remove, Vertex, Vertices, OutEdges, InEdges, Copy, Reverse, String, Dijkstra"},
 		Simulated: []string{"map iteration order at every range site (S1)"},
 	}
@@ -72,6 +75,9 @@ func (C19) Gen(r *simrt.RNG, tier string) core.Case {
 		}
 	}
 	n := 5 + r.Intn(56)
+	if r.Chance(1, 4) {
+		c.Every = 2 + r.Intn(6)
+	}
 	negW := r.Chance(1, 4)
 	// op mix weights vary per run (swarm)
 	wAdd, wEdge, wRm, wRmE, wCopy, wRev, wOw := 3+r.Intn(4), 4+r.Intn(8), r.Intn(4), r.Intn(4), r.Intn(3), r.Intn(3), r.Intn(3)
@@ -344,6 +350,10 @@ func (C19) Run(c core.Case, ctx *core.Ctx) []core.Violation {
 				break
 			}
 			// compare every handle with its model
+			if cc.Every > 1 && oi%cc.Every != 0 && oi != len(cc.Ops)-1 {
+				ctx.St.Inc("c19_ops_without_a_look")
+				continue
+			}
 			for hi, hd := range handles {
 				if msg := compareHandle(hd, cc, sim, oi == len(cc.Ops)-1 || oi%7 == 0); msg != "" {
 					parts := strings.SplitN(msg, ":", 2)
